@@ -656,7 +656,18 @@ func (m *Manager) persistState() error {
 		return err
 	}
 
-	return os.WriteFile(m.stateFile, data, 0600)
+	// Write atomically: a crash between truncating and writing the state file
+	// in place would leave it empty, and the next start would silently fall
+	// back to AWAKE. Write a temp file first and rename it over the old one.
+	tempPath := m.stateFile + ".tmp"
+	if err := os.WriteFile(tempPath, data, 0600); err != nil {
+		return err
+	}
+	if err := os.Rename(tempPath, m.stateFile); err != nil {
+		os.Remove(tempPath)
+		return err
+	}
+	return nil
 }
 
 // LoadState loads persisted state from disk.
